@@ -25,6 +25,7 @@ import json
 import os
 
 BASELINE_PATH = os.path.join(os.path.dirname(os.path.abspath(__file__)), "baseline_symbols.json")
+BASELINE_SRC_PATH = os.path.join(os.path.dirname(os.path.abspath(__file__)), "baseline_src.json")
 
 PURE_BUILTINS = {"isinstance", "len", "int", "abs", "min", "max", "str", "repr", "getattr", "tuple", "callable", "divmod", "sorted",
                  "bool", "float", "list", "set", "frozenset", "dict", "range", "enumerate", "zip", "hasattr", "type", "sum", "any", "all",
@@ -888,6 +889,76 @@ class ModuleCanon(object):
             i += 1
 
 
+def load_baseline_src():
+    try:
+        with open(BASELINE_SRC_PATH) as fh:
+            return json.load(fh)
+    except IOError:
+        return None
+
+
+def _defs_in(body, prefix, out):
+    """(holder list, index, qualname) of every top-level function / method definition."""
+    for i, st in enumerate(body):
+        if isinstance(st, (ast.FunctionDef, ast.AsyncFunctionDef)):
+            out.append((body, i, prefix + "." + st.name))
+        elif isinstance(st, ast.ClassDef):
+            _defs_in(st.body, prefix + "." + st.name, out)
+        elif isinstance(st, (ast.If, ast.Try)):
+            for fld in ("body", "orelse", "finalbody"):
+                _defs_in(getattr(st, fld, []) or [], prefix, out)
+            for h in getattr(st, "handlers", []):
+                _defs_in(h.body, prefix, out)
+    return out
+
+
+def substitute_equivalent(modules, log):
+    """For every function whose canonical syntax differs from the baseline's: if sa/equiv.py proves it equivalent, the
+    baseline spelling (which the rule tables were confirmed on) is analysed in its place."""
+    import textwrap
+    from . import equiv
+    store = load_baseline_src()
+    if store is None:
+        return
+    for name in sorted(modules):
+        refs = store.get(name)
+        if not refs:
+            continue
+        seen = {}
+        for body, i, q in _defs_in(modules[name].tree.body, name, []):
+            k = seen.get(q, 0)
+            seen[q] = k + 1
+            if q not in refs or k >= len(refs[q]):
+                continue
+            ref = refs[q][k]
+            cur = body[i]
+            try:
+                # keep the text as it is (dedenting would change multi-line string literals): wrap it in a block instead
+                text = ref["text"]
+                btree = ast.parse("if True:\n" + text if text[:1] in (" ", "\t") else text)
+            except SyntaxError:
+                continue
+            ModuleCanon(name, btree, None, []).ifexp_to_if()
+            ast.fix_missing_locations(btree)
+            base = btree.body[0].body[0] if text[:1] in (" ", "\t") else btree.body[0]
+            if not isinstance(base, type(cur)):
+                continue
+            if ast.dump(base) == ast.dump(cur):
+                continue
+            try:
+                ok, why = equiv.functions_equivalent(cur, base)
+            except Exception as e:      # the prover failing means "not proven", never "equivalent"
+                ok, why = False, "prover error: %r" % (e,)
+            if ok:
+                first = min([cur.lineno] + [d.lineno for d in cur.decorator_list])
+                bfirst = min([base.lineno] + [d.lineno for d in base.decorator_list])
+                ast.increment_lineno(base, first - bfirst)
+                body[i] = base
+                log.append(("E", q, why))
+            else:
+                log.append(("E-no", q, why))
+
+
 def canonicalise(modules, baseline=None):
     """modules: {name: Module}.  Rewrites each module's tree in place; returns the rewrite log."""
     baseline = baseline if baseline is not None else load_baseline()
@@ -897,4 +968,6 @@ def canonicalise(modules, baseline=None):
     for name in sorted(modules):
         m = modules[name]
         ModuleCanon(name, m.tree, baseline.get(name), log).run()
+    if os.environ.get("VERIF_NO_EQUIV") != "1":
+        substitute_equivalent(modules, log)
     return log
